@@ -22,6 +22,21 @@ CHECKS = {
              "Every (table option, 7/8 bit, batch/interactive, %array, back end) combination examined is lock-stepped against the same "
              "specification; flex's accept/refuse decision is compared with the extracted model on all 6144 option sets.",
         design="DESIGN.md section 6 C02", technique="machine-checked proof (Rocq) + exhaustive finite table + proved checker on emitted tables"),
+    "C06": dict(
+        text="Rocq theorems: C06_validator_sound (accepted token streams are documented tokenisations in which r/s competes with "
+             "|r|+|s| and the action sees a head split with r and s matching), C06_fixed_len_sound + C06_fixed_tail_split / "
+             "C06_fixed_head_split (the rewind flex emits for fixed-length context is the documented, unique split), "
+             "C06_bol_rules_only_at_bol, C06_head_marker_meaning (variable context: head markers of verified tables mean 'head matches'). "
+             "Real tables (incl. yy_acclist with head/trail marks) are lock-stepped against the specification; every token of compiled "
+             "scanners over 4 back ends is judged by the proved validator; flex's 'dangerous trailing context' sets are excluded.",
+        design="DESIGN.md section 6 C06", technique="machine-checked proof (Rocq) + proved validator on real token streams + lock-step on emitted tables"),
+    "C07": dict(
+        text="Rocq theorems: C07_alternatives_from_tables (for tables passing the lock-step check on full accepting lists, the "
+             "state-stack loop offers, for EVERY input, exactly the specification's list), C07_alternatives_complete (all and only the "
+             "matching (rule,length) pairs), C07_alternatives_ordered (decreasing length, then rule order), refusal with -Cf/-CF. "
+             "Compiled scanners with rejecting actions (REJECT and yyreject() spellings, 4 back ends) are compared event by event with "
+             "the specification's walk and with the walk over the emitted yy_acclist.",
+        design="DESIGN.md section 6 C07", technique="machine-checked proof (Rocq) + lock-step on emitted yy_acclist + differential event streams"),
 }
 
 NOT_YET = {
